@@ -34,9 +34,11 @@ extern RegisterAtom *g_cell;     /* arbitrary valid word (ghost) */
 #define RT_W(t, i) (RT_A(t, i)->mem + (t)->entry[i].offset)
 #define RT_ADDRESSED(t, i) (RT_INIT(t) && (i) < (t)->entries)
 
-/* The helper functions below take the entry and its area BY VALUE: a clause
- * then dereferences the path t->entry[idx].area once per call instead of once
- * per use (symbolic execution of each such dereference is what costs time). */
+/* Discipline: every helper copies the entry (and its area) BY VALUE first and
+ * works on the copies.  Symbolic execution pays for each dereference of a path
+ * like t->entry[idx].area->mem (a fresh "invalid object" symbol per
+ * dereference, found by a linear search: quadratic over a clause), so a
+ * clause dereferences such a path once per helper call, not once per use. */
 
 /* entry e of area a is well formed (established by register_init) */
 static inline bool rt_entry_wf(RegisterEntry e, RegisterArea a)
@@ -46,34 +48,30 @@ static inline bool rt_entry_wf(RegisterEntry e, RegisterArea a)
       && e.offset <= a.size && SPEC_REG_WORDS(e.type) <= a.size - e.offset;
 }
 
-/* the area is memory backed or callback backed (or has no write callback) */
-static inline bool rt_area_w_ok(RegisterArea a)
+/* entry i is well formed, its area and storage are valid objects distinct from
+ * the table, and (on demand) the area's write / read callback is one of the
+ * known ones: memory backed, callback backed, or -- write only -- absent */
+static inline bool rt_entry_ok(const RegisterTable *t, RegisterHandle i, bool need_w, bool need_r)
 {
-  return a.write == NULL || a.write == reg_mem_write || a.write == st_area_write;
+  const RegisterEntry *ep = t->entry + i;
+  if (!__CPROVER_r_ok(ep, sizeof(RegisterEntry)))
+    return false;
+  const RegisterEntry e = *ep;
+  if (!__CPROVER_r_ok(e.area, sizeof(RegisterArea)))
+    return false;
+  const RegisterArea a = *e.area;
+  if (need_w && !(a.write == NULL || a.write == reg_mem_write || a.write == st_area_write))
+    return false;
+  if (need_r && !(a.read == reg_mem_read || a.read == st_area_read))
+    return false;
+  return rt_entry_wf(e, a)
+      && __CPROVER_rw_ok(a.mem, (size_t)a.size * sizeof(RegisterAtom))
+      && !__CPROVER_same_object(a.mem, t) && !__CPROVER_same_object(a.mem, t->entry)
+      && !__CPROVER_same_object(a.mem, e.area);
 }
-
-static inline bool rt_area_r_ok(RegisterArea a)
-{
-  return a.read == reg_mem_read || a.read == st_area_read;
-}
-
-/* entry i is well formed and its storage is valid, distinct from the table */
-#define RT_ENTRY_OK(t, i) \
-  (__CPROVER_r_ok(RT_E(t, i), sizeof(RegisterEntry)) \
-   && __CPROVER_r_ok(RT_A(t, i), sizeof(RegisterArea)) \
-   && rt_entry_wf((t)->entry[i], *RT_A(t, i)) \
-   && __CPROVER_rw_ok(RT_A(t, i)->mem, (size_t)RT_A(t, i)->size * sizeof(RegisterAtom)) \
-   && !__CPROVER_same_object(RT_A(t, i)->mem, (t)) && !__CPROVER_same_object(RT_A(t, i)->mem, (t)->entry) \
-   && !__CPROVER_same_object(RT_A(t, i)->mem, RT_A(t, i)))
-#define RT_AREA_W_OK(t, i) rt_area_w_ok(*RT_A(t, i))
-#define RT_AREA_R_OK(t, i) rt_area_r_ok(*RT_A(t, i))
-
-/* the first word of register i */
-static inline RegisterAtom *rt_words(const RegisterTable *t, RegisterHandle i)
-{
-  const RegisterEntry e = t->entry[i];
-  return e.area->mem + e.offset;
-}
+#define RT_ENTRY_W_OK(t, i) rt_entry_ok(t, i, true, false)
+#define RT_ENTRY_R_OK(t, i) rt_entry_ok(t, i, false, true)
+#define RT_ENTRY_RW_OK(t, i) rt_entry_ok(t, i, true, true)
 
 /* the words of register i hold exactly the image of `bits` */
 static inline bool rt_holds(const RegisterTable *t, RegisterHandle i, uint64_t bits)
@@ -101,10 +99,15 @@ static inline uint64_t rt_bits(const RegisterTable *t, RegisterHandle i)
  * image is object number and offset: cells of other objects are outside). */
 static inline bool rt_cell_outside(const RegisterTable *t, RegisterHandle i, const RegisterAtom *cell)
 {
-  const RegisterEntry *e = t->entry + i;
-  const RegisterAtom *w = e->area->mem + e->offset;
-  const RegisterType ty = e->type;
-  return !((uintptr_t)cell - (uintptr_t)w < (uintptr_t)(SPEC_REG_WORDS(ty) * sizeof(RegisterAtom)));
+  const RegisterEntry e = t->entry[i];
+  const RegisterAtom *w = e.area->mem + e.offset;
+  return !((uintptr_t)cell - (uintptr_t)w < (uintptr_t)(SPEC_REG_WORDS(e.type) * sizeof(RegisterAtom)));
+}
+
+/* v is valid for register e (spec/registers.h) */
+static inline bool rt_valid(RegisterEntry e, RegisterValue v, bool during)
+{
+  return SPEC_VALID(&e, v.type, v.value, during);
 }
 
 /* ---- serialisers / deserialisers -------------------------------------- */
@@ -163,28 +166,42 @@ __CPROVER_assigns()
 __CPROVER_ensures(__CPROVER_return_value == SPEC_MAX_OK(v.type, v.value, limit))
 ;
 
+static inline bool rt_range_ok(RegisterEntry e, RegisterValue v)
+{
+  return SPEC_MIN_OK(v.type, v.value, e.check.arg.range.min) && SPEC_MAX_OK(v.type, v.value, e.check.arg.range.max);
+}
+
 static inline bool rv_check_range(RegisterEntry *e, const RegisterValue v)
 __CPROVER_requires(__CPROVER_r_ok(e, sizeof(RegisterEntry)))
 __CPROVER_assigns()
-__CPROVER_ensures(__CPROVER_return_value ==
-    (SPEC_MIN_OK(v.type, v.value, e->check.arg.range.min) && SPEC_MAX_OK(v.type, v.value, e->check.arg.range.max)))
+__CPROVER_ensures(__CPROVER_return_value == rt_range_ok(*e, v))
 ;
+
+static inline bool rt_validator_known(RegisterEntry e)
+{
+  return SPEC_REG_TYPE_OK(e.type) && SPEC_REGV_TYPE_OK(e.check.type)
+      && IMPLIES(e.check.type == REGV_TYPE_CALLBACK, e.check.arg.cb == st_validator);
+}
 
 static bool rv_validate(RegisterTable *t, RegisterEntry *e, const RegisterValue v)
 __CPROVER_requires(__CPROVER_r_ok(t, sizeof(RegisterTable)) && __CPROVER_r_ok(e, sizeof(RegisterEntry)))
-__CPROVER_requires(SPEC_REG_TYPE_OK(e->type) && SPEC_REGV_TYPE_OK(e->check.type))
-__CPROVER_requires(IMPLIES(e->check.type == REGV_TYPE_CALLBACK, e->check.arg.cb == st_validator))
+__CPROVER_requires(rt_validator_known(*e))
 __CPROVER_assigns()
-__CPROVER_ensures(__CPROVER_return_value == SPEC_VALID(e, v.type, v.value, RT_DURING(t)))
+__CPROVER_ensures(__CPROVER_return_value == rt_valid(*e, v, RT_DURING(t)))
 ;
 
 /* ---- memory-area callbacks ---------------------------------------------- */
 
-#define RT_MEM_OK(a, offset, n) \
-  (__CPROVER_r_ok((a), sizeof(RegisterArea)) && (a)->size >= 1u \
-   && (offset) <= (a)->size && (n) <= (a)->size - (offset) \
-   && __CPROVER_rw_ok((a)->mem, (size_t)(a)->size * sizeof(RegisterAtom)) \
-   && !__CPROVER_same_object((a)->mem, (a)))
+static inline bool rt_mem_ok(const RegisterArea *ap, RegisterOffset offset, RegisterOffset n)
+{
+  if (!__CPROVER_r_ok(ap, sizeof(RegisterArea)))
+    return false;
+  const RegisterArea a = *ap;
+  return a.size >= 1u && offset <= a.size && n <= a.size - offset
+      && __CPROVER_rw_ok(a.mem, (size_t)a.size * sizeof(RegisterAtom))
+      && !__CPROVER_same_object(a.mem, ap);
+}
+#define RT_MEM_OK(a, offset, n) rt_mem_ok(a, offset, n)
 
 /* word k of the transfer, for every k (ghost g_k) and, spelled out, for the
  * first four words (one register) */
@@ -230,10 +247,11 @@ static inline bool rt_constrained(const RegisterTable *t, RegisterHandle i)
 /* the pattern `bits` read as register i's type decodes and is valid for it */
 static inline bool rt_bits_acceptable(const RegisterTable *t, RegisterHandle i, uint64_t bits)
 {
-  const RegisterEntry *e = t->entry + i;
-  RegisterValueU u;
-  u.u64 = bits;
-  return SPEC_FLOAT_OK(e->type, u) && SPEC_VALID(e, e->type, u, false);
+  const RegisterEntry e = t->entry[i];
+  RegisterValue v;
+  v.type = e.type;
+  v.value.u64 = bits;
+  return SPEC_FLOAT_OK(e.type, v.value) && rt_valid(e, v, false);
 }
 
 static inline bool rt_inv(const RegisterTable *t, RegisterHandle i)
@@ -260,11 +278,10 @@ static inline unsigned rt_set_reasons(const RegisterTable *t, RegisterHandle idx
   if (idx >= t->entries)
     return RT_R_NOENTRY;
   const RegisterEntry e = t->entry[idx];
-  const RegisterArea a = *e.area;
   unsigned r = 0u;
-  if (checked && !SPEC_VALID(&e, v.type, v.value, RT_DURING(t)))
+  if (checked && !rt_valid(e, v, RT_DURING(t)))
     r |= RT_R_RANGE;
-  if (a.write == NULL)
+  if (e.area->write == NULL)
     r |= RT_R_READONLY;
   if (!SPEC_FLOAT_OK(e.type, v.value))
     r |= RT_R_INVALID;
@@ -294,7 +311,7 @@ static inline bool rt_set_code_ok(const RegisterTable *t, RegisterHandle idx, Re
 #define RT_SET_CONTRACT(t, idx, v, wv) \
 __CPROVER_requires(__CPROVER_r_ok(t, sizeof(RegisterTable))) \
 __CPROVER_requires(__CPROVER_rw_ok(g_cell, sizeof(RegisterAtom))) \
-__CPROVER_requires(IMPLIES(RT_ADDRESSED(t, idx), RT_ENTRY_OK(t, idx) && RT_AREA_W_OK(t, idx))) \
+__CPROVER_requires(IMPLIES(RT_ADDRESSED(t, idx), RT_ENTRY_W_OK(t, idx))) \
 __CPROVER_assigns(st_wr_verdict; \
     RT_ADDRESSED(t, idx) && SPEC_REG_W1(RT_TY(t, idx)): __CPROVER_object_upto(RT_W(t, idx), 1u * sizeof(RegisterAtom)); \
     RT_ADDRESSED(t, idx) && SPEC_REG_W2(RT_TY(t, idx)): __CPROVER_object_upto(RT_W(t, idx), 2u * sizeof(RegisterAtom)); \
@@ -350,7 +367,7 @@ RegisterAccess register_get(RegisterTable *t, RegisterHandle idx, RegisterValue 
 __CPROVER_requires(__CPROVER_r_ok(t, sizeof(RegisterTable)))
 __CPROVER_requires(__CPROVER_rw_ok(v, sizeof(RegisterValue)))
 __CPROVER_requires(__CPROVER_rw_ok(g_cell, sizeof(RegisterAtom)) && !__CPROVER_same_object(g_cell, v))
-__CPROVER_requires(IMPLIES(RT_ADDRESSED(t, idx), RT_ENTRY_OK(t, idx) && RT_AREA_R_OK(t, idx)
+__CPROVER_requires(IMPLIES(RT_ADDRESSED(t, idx), RT_ENTRY_R_OK(t, idx)
     && !__CPROVER_same_object(RT_A(t, idx)->mem, v)))
 __CPROVER_assigns(st_rd_verdict; RT_ADDRESSED(t, idx): v->type, v->value)
 __CPROVER_ensures(rt_get_ok(t, idx, __CPROVER_old(st_rd_verdict), *v, RT_V_SAME(v), __CPROVER_return_value.code))
@@ -368,13 +385,13 @@ extern uint64_t g_old_bits;      /* ghost: the pattern a register holds at entry
  * registers of one area do not overlap) */
 static inline bool rt_disjoint(const RegisterTable *t, RegisterHandle i, RegisterHandle j)
 {
-  const RegisterEntry *a = t->entry + i, *b = t->entry + j;
   if (i == j)
     return false;
-  if (a->area != b->area)
-    return !__CPROVER_same_object(a->area->mem, b->area->mem);
-  return a->offset + (uint64_t)SPEC_REG_WORDS(a->type) <= b->offset
-      || b->offset + (uint64_t)SPEC_REG_WORDS(b->type) <= a->offset;
+  const RegisterEntry a = t->entry[i], b = t->entry[j];
+  if (a.area != b.area)
+    return !__CPROVER_same_object(a.area->mem, b.area->mem);
+  return a.offset + (uint64_t)SPEC_REG_WORDS(a.type) <= b.offset
+      || b.offset + (uint64_t)SPEC_REG_WORDS(b.type) <= a.offset;
 }
 
 /* bit set / bit clear.  g_old_bits names the pattern held at entry (bound in
@@ -398,18 +415,21 @@ static inline bool rt_bitop_code_ok(const RegisterTable *t, RegisterHandle idx, 
     return code == REG_ACCESS_UNINITIALISED;
   if (idx >= t->entries)
     return code == REG_ACCESS_NOENTRY;
-  const RegisterEntry *e = t->entry + idx;
-  const bool rd_refused = e->area->read == st_area_read && ST_REFUSES(rd_verdict);
-  const bool operand_ok = SPEC_REG_IS_UNSIGNED(e->type) && v.type == e->type;
+  const RegisterEntry e = t->entry[idx];
+  const RegisterArea a = *e.area;
+  const bool rd_refused = a.read == st_area_read && ST_REFUSES(rd_verdict);
+  const bool operand_ok = SPEC_REG_IS_UNSIGNED(e.type) && v.type == e.type;
   if (rd_refused || !operand_ok)
     return (rd_refused && code == ST_CODE(rd_verdict)) || (!operand_ok && code == REG_ACCESS_INVALID);
-  RegisterValueU nv;
-  nv.u64 = rt_bitop_new(t, idx, v, set, old_bits);
-  const bool r_range = !SPEC_VALID(e, e->type, nv, RT_DURING(t));
-  const bool r_readonly = e->area->write == NULL;
+  const uint64_t mask = SPEC_BITS(e.type, v.value);
+  RegisterValue nv;
+  nv.type = e.type;
+  nv.value.u64 = set ? (old_bits | mask) : (old_bits & ~mask);
+  const bool r_range = !rt_valid(e, nv, RT_DURING(t));
+  const bool r_readonly = a.write == NULL;
   if (r_range || r_readonly)
     return (r_range && code == REG_ACCESS_RANGE) || (r_readonly && code == REG_ACCESS_READONLY);
-  if (e->area->write == st_area_write && ST_REFUSES(wr_verdict))
+  if (a.write == st_area_write && ST_REFUSES(wr_verdict))
     return code == ST_CODE(wr_verdict);
   return code == REG_ACCESS_SUCCESS;
 }
@@ -417,7 +437,7 @@ static inline bool rt_bitop_code_ok(const RegisterTable *t, RegisterHandle idx, 
 #define RT_BITOP_CONTRACT(t, idx, v, SET) \
 __CPROVER_requires(__CPROVER_r_ok(t, sizeof(RegisterTable))) \
 __CPROVER_requires(__CPROVER_rw_ok(g_cell, sizeof(RegisterAtom))) \
-__CPROVER_requires(IMPLIES(RT_ADDRESSED(t, idx), RT_ENTRY_OK(t, idx) && RT_AREA_W_OK(t, idx) && RT_AREA_R_OK(t, idx))) \
+__CPROVER_requires(IMPLIES(RT_ADDRESSED(t, idx), RT_ENTRY_RW_OK(t, idx))) \
 __CPROVER_requires(IMPLIES(RT_ADDRESSED(t, idx), g_old_bits == rt_bits(t, idx))) \
 __CPROVER_assigns(st_rd_verdict, st_wr_verdict; \
     RT_ADDRESSED(t, idx) && SPEC_REG_W1(RT_TY(t, idx)): __CPROVER_object_upto(RT_W(t, idx), 1u * sizeof(RegisterAtom)); \
@@ -463,7 +483,7 @@ extern RegisterHandle g_reg;     /* ghost: an arbitrary register handle */
  * callback, constrained by none/min/max/range/callback (as in the statement),
  * its flags are writable, and no two registers share storage words */
 #define RT_SAN_ENTRY_OK(i) \
-  IMPLIES((i) < t->entries, RT_ENTRY_OK(t, i) && RT_AREA_W_OK(t, i) && RT_AREA_R_OK(t, i) \
+  IMPLIES((i) < t->entries, RT_ENTRY_RW_OK(t, i) \
     && t->entry[i].check.type != REGV_TYPE_FAIL \
     && __CPROVER_rw_ok(&t->entry[i].flags, sizeof(uint16_t)))
 #define RT_SAN_PAIR_OK(i, j) IMPLIES((j) < t->entries, rt_disjoint(t, i, j))
@@ -472,9 +492,10 @@ extern RegisterHandle g_reg;     /* ghost: an arbitrary register handle */
  * make sanitise fail at it */
 static inline bool rt_san_cannot_fail(const RegisterTable *t, RegisterHandle i)
 {
-  const RegisterEntry *e = t->entry + i;
-  return e->area->read == reg_mem_read && e->area->write == reg_mem_write
-      && rt_bits_acceptable(t, i, SPEC_BITS(e->type, e->default_value));
+  const RegisterEntry e = t->entry[i];
+  const RegisterArea a = *e.area;
+  return a.read == reg_mem_read && a.write == reg_mem_write
+      && rt_bits_acceptable(t, i, SPEC_BITS(e.type, e.default_value));
 }
 #define RT_SAN_CANNOT_FAIL(i) IMPLIES((i) < t->entries, rt_san_cannot_fail(t, i))
 #define RT_SAN_CELL_OUTSIDE(i) IMPLIES((i) < t->entries, rt_cell_outside(t, i, g_cell))
